@@ -146,7 +146,6 @@ func spaces(c *core.Ctx, rng *rand.Rand) []Space {
 			sp.Slots[0].Scopes = [][2]string{scF, scPa, scMain}
 			sp.Slots[1].Scopes = [][2]string{scG, scPb, scMain}
 			sp.Slots[0].Embt = [][]string{no, vp, v}
-			sp.Slots[2].Decls = allDecls(1)
 			sp.Slots[2].Embt = [][]string{v}
 		}
 		out = append(out, sp)
@@ -169,7 +168,7 @@ func spaces(c *core.Ctx, rng *rand.Rand) []Space {
 		for i := 0; i < 4; i++ {
 			sp.Slots = append(sp.Slots, slot(tn, all, allDecls(3), "asc", "desc"))
 		}
-		n := c.Pick(150, 3000)
+		n := c.Pick(150, 1500)
 		seen := map[string]bool{}
 		for len(sp.Samples) < n {
 			ts := sampleFamily(rng, &sp)
@@ -185,15 +184,18 @@ func spaces(c *core.Ctx, rng *rand.Rand) []Space {
 		}
 		out = append(out, sp)
 	}
-	// S5 (thorough): three types, two names (exported + unexported), all scopes, exhaustive
+	// S5 (thorough): three types, an exported and an unexported name, three packages and a
+	// function scope, exhaustive inside the listed declaration patterns
 	if c.Thorough() {
 		sp := Space{Label: "two-names", Mode: "exh", Names: []string{"M", "m"}, Rooted: true, Samples: [][]TypeDecl{}, Nunits: 1,
 			Ifaces: []Iface{named("main", []string{"M"}), named("pa", []string{"m"}), anon("main", []string{"m"}), named("main", []string{"m"}, 1)}}
 		sp.Slots = []Slot{
-			slot([]string{"A"}, [][2]string{scMain, scF}, allDecls(2)),
-			slot([]string{"B"}, [][2]string{scMain, scPa}, allDecls(2)),
-			slot([]string{"C"}, [][2]string{scMain, scPa, scPb}, allDecls(2)),
+			slot([]string{"A"}, [][2]string{scMain, scF}, [][]string{{"-", "-"}, {"-", "v"}, {"p", "-"}}),
+			slot([]string{"B"}, [][2]string{scMain, scPa}, [][]string{{"-", "-"}, {"v", "-"}, {"-", "v"}, {"-", "p"}, {"p", "v"}}),
+			slot([]string{"C"}, [][2]string{scPb}, [][]string{{"-", "v"}, {"-", "p"}, {"v", "-"}, {"v", "p"}}),
 		}
+		sp.Slots[0].Embt = [][]string{{"v", "p"}, {"-", "v"}}
+		sp.Slots[1].Embt = [][]string{{"-", "v", "p"}}
 		out = append(out, sp)
 	}
 	for i := range out {
@@ -307,6 +309,13 @@ func decide(c *core.Ctx, pool *gjs.Pool, p *Params) {
 		}
 	}
 	sort.Slice(tables, func(i, j int) bool { return tables[i].key() < tables[j].key() })
+	// Non-vacuity aids (never set in normal runs): C09_CORRUPT=spec falsifies one
+	// predicted cell (the reference toolchain must then disagree: one discard),
+	// C09_CORRUPT=obs falsifies one observed line (must give a VIOLATION).
+	corrupt := os.Getenv("C09_CORRUPT")
+	if corrupt == "spec" && len(tables) > 0 {
+		tables[0].S1[0] += 7
+	}
 	perSpace := map[string]int{}
 	exhaustive := true
 	for i := range p.Spaces {
@@ -319,6 +328,11 @@ func decide(c *core.Ctx, pool *gjs.Pool, p *Params) {
 		perSpace[t.sp.Label]++
 		c.Distinct(t.key())
 	}
+	nsamp := 0
+	for i := range p.Spaces {
+		nsamp += len(p.Spaces[i].Samples)
+	}
+	c.Set("sampled_families_drawn", nsamp)
 	c.Set("families", len(tables))
 	c.Set("families_per_space", perSpace)
 	c.Set("exhaustive", exhaustive)
@@ -369,6 +383,9 @@ func decide(c *core.Ctx, pool *gjs.Pool, p *Params) {
 		}
 		nat := sections(res.Native.Lines)
 		jsS := sections(res.JS.Lines)
+		if corrupt == "obs" && bi == 0 && len(jsS[1]) > 2 {
+			jsS[1][2] = "corrupted"
+		}
 		for _, f := range fams {
 			n, ok := nat[f.idx]
 			good := ok && len(n) == len(f.cells)
